@@ -116,7 +116,9 @@ func (fc *FnCtx) instr(in ssa.Instruction, idx int) {
 	case *ssa.RunDefers:
 		fc.runDefers(x)
 	case *ssa.Send:
+		n := fc.getHeapTerm(&fc.cur, "$sends", SInt)
 		fc.havocAll(&fc.cur)
+		fc.cur.m["$sends"] = fmt.Sprintf("(+ %s 1)", n)
 	case *ssa.Store:
 		fc.doStore(x)
 	default:
